@@ -161,6 +161,7 @@ static void fd_feed(htp_connp_t *connp, int req, const char *data, size_t len) {
 
 static void fd_run_script(void) {
     fd_opt_runtime_hooks = fd_sc.runtime_hooks;
+    { char *e = getenv("FD_CHUNK"); if (e != NULL && atoi(e) > 0) fd_sc.chunk = (size_t) atoi(e); }
     htp_cfg_t *cfg = fd_make_cfg();
     if (cfg == NULL) { fd_note("cfg0"); return; }
     htp_connp_t *connp = htp_connp_create(cfg);
